@@ -132,6 +132,7 @@ typedef struct {
 static const char *outdir = ".";
 static void print_agg(void);
 static void agg_note_abort(int kind);
+static uint64_t runs, viol;
 static void install_crash_handlers(void);
 static hx_plan_t *cur_plan;
 static uint64_t cur_seed;
@@ -167,6 +168,24 @@ static void write_rec(const runrec_t *r)
         size_t n = sizeof(*r);
         while (n) { ssize_t k = write(child_fd, b, n); if (k <= 0) break; b += k; n -= k; }
     }
+}
+
+void hx_abort_run(const char *vclass, const char *detail)
+{
+    runrec_t r;
+    memset(&r, 0, sizeof(r));
+    r.seed = cur_seed;
+    r.verdict = 1;
+    snprintf(r.vclass, sizeof(r.vclass), "%s", vclass);
+    snprintf(r.detail, sizeof(r.detail), "%s", detail);
+    for (char *c = r.detail; *c; c++) if (*c == '\n') *c = ' ';
+    if (cur_plan) dump_case(cur_seed, cur_plan, in_replay_mode ? "replay" : "viol");
+    if (in_child) { write_rec(&r); _exit(0); }
+    runs++; viol++;
+    if (in_replay_mode) printf("RESULT verdict=1 class=%s fp=0000000000000000 hist=0000000000000000 steps=0 switches=0 detail=%s\n", r.vclass, r.detail);
+    else { printf("VIOL seed=%llu class=%s detail=%s\n", (unsigned long long)cur_seed, r.vclass, r.detail); print_agg(); }
+    fflush(stdout);
+    _exit(1);
 }
 
 static void on_abort(int kind, const char *detail)
@@ -340,7 +359,7 @@ static double wall(void)
 
 /* aggregate state (file scope so that an abnormal end can still report it) */
 static fpset_t fps, fps_nt;
-static uint64_t runs, ok, viol, discard, budget, nontrivial;
+static uint64_t ok, discard, budget, nontrivial;
 static uint64_t steps, switches, preempt, forced, sim_ns, cas_fail, spin_y, stalls, jumps, nsync;
 static uint64_t strat[3], probes[64], maxthr, probe_runs[64];
 static double t0;
